@@ -797,7 +797,10 @@ impl<'a> Ctx<'a> {
                     // network connection between the two nodes ended after the call, if somebody
                     // force-closed, or if the run ended before the open time-out could fire
                     let closed_after = evs.iter().any(|r| r.t >= *t && matches!(&r.k, K::PClosed { proto: p, peer: q } if *p == proto && q == peer));
-                    let net_end = self.conns_between(i, *peer).iter().any(|c| c.3.is_some_and(|d| d >= *t));
+                    // (a host that vanished silently: SimNet records the instant of the vanishing,
+                    // the surviving end notices - and terminates the connection - only at its next
+                    // write, possibly this very request)
+                    let net_end = self.conns_between(i, *peer).iter().any(|c| c.3.is_some_and(|d| d >= *t)) || self.dead.get(peer) == Some(&true);
                     let forced = evs.iter().any(|r| r.t >= *t && matches!(&r.k, K::PForceClose { peer: q, .. } if q == peer));
                     let too_late = *t + (self.sub_open_ms + 2_000) * 1_000_000 > self.end_ns;
                     if !(closed_after || net_end || forced || too_late) {
